@@ -125,7 +125,8 @@ def m_outer(m1, m2, op):
         return B1 + B2 if op == "sum" else B1 * B2
     shape = np.broadcast_shapes(m1.shape, m2.shape)
     mag = m1.mag + m2.mag if op == "sum" else m1.mag * m2.mag
-    return M(_kind2(m1, m2), shape, m1.axes + m2.axes, grid, max(1.0, mag))
+    # matrix-valued results are compared on all routes but not used as operands of further operations
+    return M(_kind2(m1, m2), shape, m1.axes + m2.axes, grid, max(1.0, mag), terminal=len(shape) >= 2)
 
 
 def m_as_vector(m):
@@ -205,7 +206,7 @@ def parse_bd(spec, d):
 # --------------------------------------------------------------------------------------------------
 
 SEEDS = ("line", "line1", "square", "cube", "qann", "bqann", "arc3", "arc7", "tbox", "quad", "scal", "nscal")
-AUX = ("auxL", "auxA", "auxS")
+AUX = ("auxL", "auxA", "auxS", "auxM")
 
 
 def make_seed(name):
@@ -258,6 +259,11 @@ def make_seed(name):
     if name == "auxS":
         kv = bspline.KnotVector(np.array([0, 0, 0, 1, 1, 1.]), 2)
         g = bspline.BSplineFunc(kv, np.array([2.0, -1.0, 0.5]))
+        return g, m_from_spline(g, "bspline")
+    if name == "auxM":          # matrix-valued (2x2) curve: value shapes of different rank meet in outer_sum/outer_product
+        kv = bspline.KnotVector(np.array([0, 0, 0, 1, 1, 1.]), 2)
+        C = np.array([[[1.0, -2.0], [0.5, 3.0]], [[0.0, 1.5], [-1.0, 2.0]], [[2.5, 0.25], [4.0, -0.5]]])
+        g = bspline.BSplineFunc(kv, C)
         return g, m_from_spline(g, "bspline")
     raise ValueError(name)
 
@@ -541,6 +547,8 @@ class Pool:
         try:
             o2 = apply_real(self.objs, ev)
         except Exception as e:
+            if isinstance(e, NotImplementedError) or (isinstance(e, AssertionError) and "not implemented" in str(e).lower()):
+                return probs, False         # explicit refusal (e.g. tensor-valued NURBS functions): nothing is claimed
             if ev[0] in ("outer_sum", "outer_product", "tensor_product"):
                 # one key per operand pattern (the same defect surfaces at different places for the two orders)
                 pat = "-x-".join(sorted({0: "scalar", 1: "vector", 2: "matrix"}[len(self.models[k].shape)] for k in ev[1:3]))
